@@ -240,6 +240,7 @@ func C06(run *mon.Run) {
 		go func(pi int, n, t int) {
 			defer wg.Done()
 			defer func() { <-sem }()
+			defer run.Protect("c06 worker")
 			r := run.Rand(fmt.Sprintf("small-%d-%d", n, t))
 			g, ok := newThrGroup(run, r, n, t, run.Pick(2, n))
 			if !ok {
@@ -301,6 +302,7 @@ func C06(run *mon.Run) {
 		go func(bi int, n, t int) {
 			defer wg.Done()
 			defer func() { <-sem }()
+			defer run.Protect("c06 worker")
 			r := run.Rand(fmt.Sprintf("big-%d-%d-%d", bi, n, t))
 			g, ok := newThrGroup(run, r, n, t, run.Pick(1, 4))
 			if !ok {
